@@ -11,6 +11,9 @@ impl Prop for C05 {
     fn id(&self) -> &'static str {
         "C05"
     }
+    fn fuzz_target(&self) -> Option<&'static str> {
+        Some("fz_choices")
+    }
     fn stream_len(&self, _tier: Tier) -> usize {
         600
     }
